@@ -52,6 +52,15 @@ var solverCmds = [][]string{
 
 var solverSem = make(chan struct{}, 14)
 
+// CrossCheck (thorough tier): do not race the solvers, let each of them answer every query.
+var CrossCheck bool
+var crossMu sync.Mutex
+
+// CrossStats counts how the solvers agreed in cross-check mode.
+var CrossStats struct {
+	Queries, UnsatByTwoOrMore, UnsatBySingleSolver, Disagreements int
+}
+
 func fixForCvc5(q string) string {
 	// cvc5 wants (- n) for negative literals; we always print them that way.
 	return q
@@ -117,6 +126,61 @@ func Solve(workdir, name, query string, timeout time.Duration, only string) Solv
 		}(sc)
 	}
 	go func() { wg.Wait(); close(ch) }()
+	if CrossCheck && only == "" {
+		// thorough tier: every solver answers (no race); a single "sat" refutes, and a "sat" next to an
+		// "unsat" is recorded as a disagreement between solvers
+		var all []SolverResult
+		for r := range ch {
+			all = append(all, r)
+		}
+		var sat, unsat []SolverResult
+		for _, r := range all {
+			switch r.Result {
+			case "sat":
+				sat = append(sat, r)
+			case "unsat":
+				unsat = append(unsat, r)
+			}
+		}
+		crossMu.Lock()
+		CrossStats.Queries++
+		switch {
+		case len(sat) > 0 && len(unsat) > 0:
+			CrossStats.Disagreements++
+		case len(unsat) >= 2:
+			CrossStats.UnsatByTwoOrMore++
+		case len(unsat) == 1:
+			CrossStats.UnsatBySingleSolver++
+		}
+		crossMu.Unlock()
+		if len(sat) > 0 {
+			r := sat[0]
+			if len(unsat) > 0 {
+				r.Raw = "SOLVER DISAGREEMENT: " + unsat[0].Solver + " answered unsat\n" + r.Raw
+			}
+			return r
+		}
+		if len(unsat) > 0 {
+			r := unsat[0]
+			var names []string
+			var ms int64
+			for _, u := range unsat {
+				names = append(names, u.Solver)
+				if u.Ms > ms {
+					ms = u.Ms
+				}
+			}
+			r.Solver, r.Ms = strings.Join(names, "+"), ms
+			if os.Getenv("GOVC_KEEP") == "" {
+				os.Remove(file)
+			}
+			return r
+		}
+		if len(all) > 0 {
+			return all[0]
+		}
+		return SolverResult{Result: "unknown"}
+	}
 	var last SolverResult
 	last.Result = "unknown"
 	var errs []string
